@@ -68,9 +68,19 @@ class Engine:
         self.t_solver += dt
         detail = ''
         wit = None
+        replayed = None
         if status == REFUTED:
             detail = 'counter-model: ' + smt.model_text(model)
             wit = dict(model=smt.model_text(model, 200))
+            try:
+                rp = self.native_replay(model)
+                if rp is not None:
+                    replayed, info, code = rp
+                    wit['native_replay'] = code
+                    wit['native_result'] = info
+                    wit['input'] = info.get('values') if isinstance(info, dict) else None
+            except Exception as e:  # noqa
+                wit['native_result'] = 'replay machinery failed: %r' % (e,)
         elif status == UNDECIDED:
             # Every registered obligation discharges on the unchanged tree with a wide time margin, so a proof
             # that no longer goes through is reported as a failed obligation (no counter-model: quantified VC).
@@ -83,12 +93,59 @@ class Engine:
             if o.name == full:
                 rank = {DISCHARGED: 0, UNDECIDED: 1, REFUTED: 2}
                 o.time_s += dt
-                if rank[status] > rank[o.status]:
+                if rank[status] > rank[o.status] or (status == REFUTED and replayed and not o.replayed):
                     o.status, o.detail, o.witness, o.backend = status, detail, wit, 'smt:' + be
+                    o.replayed = replayed
                 o.paths = getattr(o, 'paths', 1) + 1
                 return status
-        self.obs.append(Ob(full, 'D', 'smt:' + be, status, dt, detail, wit, functions=[self.qual]))
+        self.obs.append(Ob(full, 'D', 'smt:' + be, status, dt, detail, wit, functions=[self.qual], replayed=replayed))
         return status
+
+    def native_replay(self, model):
+        """Concretise the counter-model through the contract's observables and run the real function natively."""
+        rp = getattr(self.ctr, 'replay', None)
+        if not rp or self.entry is None:
+            return None
+        import os
+        import subprocess
+        from pv.core import VENV_PY, VERIF, REPO
+        from pv.rx import z3_unescape
+        vals = {}
+        kinds = {}
+        for name, expr in rp['observe'].items():
+            v, _ = self.spec_value(self.entry, expr)
+            vals[name] = self._concrete(model, v)
+            kinds[name] = 'str' if isinstance(v, VStr) else ('pos' if isinstance(v, VTuple) else 'int')
+        body = rp['script'].format(**{k: k for k in vals})        # the script is the body of check(<observables>)
+        names = list(vals)
+        code = ('import sys, itertools\nsys.path.insert(0, %r)\n' % VERIF +
+                'def check(%s):\n' % ', '.join(names) +
+                ''.join('    ' + l + '\n' for l in body.splitlines()) +
+                'POOLS = dict(str=["", "a", "ab", "\\n", "a\\n", "\\r\\n", "a\\nb", "\\r", "a\\rbc", "\\n\\n", "\\ufeff", "#c", "\\\\\\n", "\\x0c"],\n'
+                '             int=[0, 1, 2, 7], pos=[(1, 0), (2, 3), (1, 5)])\n'
+                'def run(vals):\n'
+                '    try:\n        return check(*vals)\n    except Exception as e:\n        return ("exception %%r" %% (e,))\n'
+                'model = %r\n' % ([vals[n] for n in names],) +
+                'r = run(model)\n'
+                'if r:\n    print("counter-model reproduces:", dict(zip(%r, model)), r); sys.exit(1)\n' % (names,) +
+                'for vals in itertools.product(*[POOLS[k] for k in %r]):\n' % ([kinds[n] for n in names],) +
+                '    r = run(list(vals))\n'
+                '    if r:\n        print("failing input near the counter-model:", dict(zip(%r, vals)), r); sys.exit(1)\n' % (names,) +
+                'print("not reproduced")\n')
+        env = dict(os.environ, PYTHONPATH=VERIF + os.pathsep + REPO)
+        p = subprocess.run([VENV_PY, '-c', code], env=env, capture_output=True, text=True, timeout=120)
+        return p.returncode == 1, dict(values=vals, output=(p.stdout + p.stderr)[-400:], exit=p.returncode), code
+
+    def _concrete(self, model, v):
+        from pv.rx import z3_unescape
+        if isinstance(v, VTuple):
+            return tuple(self._concrete(model, x) for x in v.items)
+        t = model.eval(v.t, model_completion=True)
+        if isinstance(v, VStr):
+            return z3_unescape(t.as_string())
+        if isinstance(v, VBool):
+            return z3.is_true(t)
+        return t.as_long()
 
     def note(self, name, status, detail=''):
         full = '%s#%s' % (self.key, name)
